@@ -111,3 +111,13 @@ def all_lists(xs):
 def as_obj(x, cls):
     """x, known to be an instance of cls (lets a contract read the attributes of an element of a sequence)."""
     return x
+
+
+def fst(pair):
+    """First component of a (value, path) pair."""
+    return pair[0]
+
+
+def snd(pair):
+    """Second component of a (value, path) pair."""
+    return pair[1]
